@@ -340,6 +340,85 @@ fn j_qobs(o: &QObs) -> Value {
         QObs::Panic => json!("panic"),
     }
 }
+/// a byte string as the judge's `cstr`: parts (chunk, count), each chunk
+/// repeated count times; periodic stretches (period up to 16) are folded.
+/// The expansion is checked against the input.
+fn g_cstr(b: &[u8]) -> String {
+    let mut parts: Vec<(Vec<u8>, usize)> = vec![];
+    let mut lit: Vec<u8> = vec![];
+    let mut i = 0;
+    while i < b.len() {
+        let mut best = (0usize, 0usize);
+        for p in 1..=16usize {
+            if i + p > b.len() {
+                break;
+            }
+            let mut reps = 1;
+            while i + (reps + 1) * p <= b.len() && b[i + reps * p..i + (reps + 1) * p] == b[i..i + p] {
+                reps += 1;
+            }
+            if reps >= 4 && reps * p >= 48 && reps * p > best.0 * best.1 {
+                best = (p, reps);
+            }
+        }
+        if best.0 > 0 {
+            if !lit.is_empty() {
+                parts.push((std::mem::take(&mut lit), 1));
+            }
+            parts.push((b[i..i + best.0].to_vec(), best.1));
+            i += best.0 * best.1;
+        } else {
+            lit.push(b[i]);
+            i += 1;
+        }
+    }
+    if !lit.is_empty() {
+        parts.push((lit, 1));
+    }
+    let back: Vec<u8> = parts.iter().flat_map(|(c, n)| c.iter().cloned().cycle().take(c.len() * n)).collect();
+    assert_eq!(back, b, "cstr expansion");
+    format!("(CS {})", g_list(&parts, |(c, n)| format!("({},{})", g_bytes(c), n)))
+}
+/// consecutive equal pairs folded into (key, value, count)
+fn g_ckvs(kvs: &[(String, String)]) -> String {
+    let mut runs: Vec<(&(String, String), usize)> = vec![];
+    for kv in kvs {
+        match runs.last_mut() {
+            Some(r) if r.0 == kv => r.1 += 1,
+            _ => runs.push((kv, 1)),
+        }
+    }
+    g_list(&runs, |(kv, n)| format!("({},{},{})", g_cstr(kv.0.as_bytes()), g_cstr(kv.1.as_bytes()), n))
+}
+const BIG: usize = 3000;
+fn kvs_big(kvs: &[(String, String)]) -> bool {
+    kvs.len() > 40 || kvs.iter().map(|(k, v)| k.len() + v.len()).sum::<usize>() > BIG
+}
+fn g_ctokobs(o: &QObs, cut: bool) -> String {
+    // `cut`: the token is longer than 512 bytes, any acceptance is a violation
+    // whatever the selector: keep only its first 64 bytes
+    let c = |s: &[u8]| if cut && s.len() > 64 { g_cstr(&s[..64]) } else { g_cstr(s) };
+    match o {
+        QObs::Next(s, _) => format!("(CTAccept {})", c(s)),
+        QObs::First(..) => format!("(CTAccept {})", g_cstr(b"<first>")),
+        QObs::Refuse => "CTRefuse".into(),
+        QObs::Panic => "CTPanic".into(),
+    }
+}
+/// for a token longer than 512 bytes the selector in the oracle cannot matter
+/// (the length alone obliges a refusal): keep it short
+fn cut_ti(t: &TokInfo, token_len: usize) -> TokInfo {
+    let env = match &t.env {
+        EnvO::Some(v, s) if token_len > 512 && s.len() > 64 => EnvO::Some(*v, s[..64].to_vec()),
+        e => e.clone(),
+    };
+    TokInfo { issued: t.issued, hash: t.hash, env }
+}
+const ROUND: [usize; 8] = [256, 384, 512, 1024, 4096, 16384, 65536, 32768];
+fn near_round(n: usize) -> bool {
+    ROUND.iter().any(|r| n + 1 >= *r && n <= r + 1)
+}
+
 fn g_kvs(kvs: &[(String, String)]) -> String {
     g_list(kvs, |(k, v)| format!("({},{})", g_str(k), g_str(v)))
 }
@@ -470,21 +549,49 @@ fn exec_shape<S: Shape>(case: &Case, live: &mut Option<LiveServer>) -> Vec<Line>
                 Err(c) => format!("(Err {})", c),
             };
             let toklen = env.as_ref().map(|e| own_token(e).len()).unwrap_or(0);
-            let coq = format!("(CIssue {} {} {} {})", g_bytes(&selj), g_opt(&env, |e| g_bytes(e)), obs_coq, g_tokobs(&back));
+            let coq = if selj.len() > BIG {
+                format!(
+                    "(CIssueC {} {} {} {})",
+                    g_cstr(&selj),
+                    g_opt(&env, |e| g_cstr(e)),
+                    match &r {
+                        Ok(t) => format!("(Ok {})", g_cstr(t.as_bytes())),
+                        Err(c) => format!("(Err {})", c),
+                    },
+                    g_ctokobs(&back, false)
+                )
+            } else {
+                format!("(CIssue {} {} {} {})", g_bytes(&selj), g_opt(&env, |e| g_bytes(e)), obs_coq, g_tokobs(&back))
+            };
+            let mut large = vec![];
+            if let Some(e) = &env {
+                if near_round(e.len()) {
+                    large.push(format!("large:envelope-bytes:{}", e.len()));
+                }
+            }
             let band = if toklen <= 504 { "<=504".to_string() } else if toklen <= 520 { toklen.to_string() } else { ">520".to_string() };
             vec![Line {
                 group: "issue",
                 case: cj,
                 obs: json!({"issued": r.as_ref().ok(), "err": r.as_ref().err(), "back": j_qobs(&back), "token_len": toklen}),
                 coq,
-                tags: vec![format!("issue:{}:len{}", shape, band), format!("issue:{}", if r.is_ok() { "ok" } else { "refused" })],
+                tags: [vec![format!("issue:{}:len{}", shape, band), format!("issue:{}", if r.is_ok() { "ok" } else { "refused" })], large].concat(),
                 nontrivial: true,
             }]
         }
         Case::Accept { shape, token, from } => {
             let ti = tokinfo::<S>(token, from);
             let obs = run_query::<S>(&format!("page_token={}", enc(token)));
-            let coq = format!("(CAccept {} {} {})", g_str(token), g_ti(&ti), g_tokobs(&obs));
+            let coq = if token.len() > BIG {
+                format!(
+                    "(CAcceptC {} {} {})",
+                    g_cstr(token.as_bytes()),
+                    g_ti(&cut_ti(&ti, token.len())),
+                    g_ctokobs(&obs, token.len() > 512)
+                )
+            } else {
+                format!("(CAccept {} {} {})", g_str(token), g_ti(&ti), g_tokobs(&obs))
+            };
             let kind = match (&obs, ti.issued) {
                 (QObs::Next(..), true) => "issued-accepted",
                 (QObs::Next(..), false) => "forged-accepted",
@@ -496,7 +603,11 @@ fn exec_shape<S: Shape>(case: &Case, live: &mut Option<LiveServer>) -> Vec<Line>
                 case: cj,
                 obs: j_qobs(&obs),
                 coq,
-                tags: vec![format!("accept:{}:{}", shape, kind)],
+                tags: if near_round(token.len()) {
+                    vec![format!("accept:{}:{}", shape, kind), format!("large:token-chars:{}", token.len())]
+                } else {
+                    vec![format!("accept:{}:{}", shape, kind)]
+                },
                 nontrivial: !token.is_empty(),
             }]
         }
@@ -553,7 +664,12 @@ fn exec_shape<S: Shape>(case: &Case, live: &mut Option<LiveServer>) -> Vec<Line>
                 None => no_ti(),
             };
             let obs = run_query::<S>(&query_of(kvs));
-            let coq = format!("(CQuery {} {} {})", g_kvs(kvs), g_ti(&ti), g_qobs(&obs));
+            let tok_len = tok.as_ref().map(|t| t.len()).unwrap_or(0);
+            let coq = if kvs_big(kvs) {
+                format!("(CQueryC {} {} {})", g_ckvs(kvs), g_ti(&cut_ti(&ti, tok_len)), g_qobs(&obs))
+            } else {
+                format!("(CQuery {} {} {})", g_kvs(kvs), g_ti(&ti), g_qobs(&obs))
+            };
             let ntok = kvs.iter().filter(|(k, _)| k == "page_token").count();
             let nlim = kvs.iter().filter(|(k, _)| k == "limit").count();
             let o = match &obs {
@@ -567,7 +683,7 @@ fn exec_shape<S: Shape>(case: &Case, live: &mut Option<LiveServer>) -> Vec<Line>
                 case: cj,
                 obs: j_qobs(&obs),
                 coq,
-                tags: vec![format!("query:{}:tok{}:lim{}:{}", shape, ntok.min(2), nlim.min(2), o)],
+                tags: [vec![format!("query:{}:tok{}:lim{}:{}", shape, ntok.min(2), nlim.min(2), o)], large_query_tags(kvs, query_of(kvs).len())].concat(),
                 nontrivial: !kvs.is_empty(),
             }]
         }
@@ -607,23 +723,54 @@ fn exec_shape<S: Shape>(case: &Case, live: &mut Option<LiveServer>) -> Vec<Line>
                 },
                 Ok(resp) => (format!("(LStatus {})", resp.status), json!({"status": resp.status})),
             };
-            let coq = format!("(CLive {} {} {} {} {})", g_kvs(kvs), g_ti(&ti), marker, n, obs_coq);
+            let tok_len = tok.as_ref().map(|t| t.len()).unwrap_or(0);
+            let coq = if kvs_big(kvs) {
+                format!("(CLiveC {} {} {} {} {} {})", target.len(), g_ckvs(kvs), g_ti(&cut_ti(&ti, tok_len)), marker, n, obs_coq)
+            } else {
+                format!("(CLive {} {} {} {} {})", g_kvs(kvs), g_ti(&ti), marker, n, obs_coq)
+            };
             let nlim = kvs.iter().filter(|(k, _)| k == "limit").count();
             vec![Line {
                 group: "live",
                 case: cj,
                 obs: obs_j.clone(),
                 coq,
-                tags: vec![format!(
-                    "live:tok{}:lim{}:{}",
-                    tok.is_some() as u8,
-                    nlim.min(2),
-                    if obs_j.get("status").is_some() { "refused" } else if obs_j.get("limit").is_some() { "ok" } else { "fail" }
-                )],
+                tags: [
+                    vec![format!(
+                        "live:tok{}:lim{}:{}",
+                        tok.is_some() as u8,
+                        nlim.min(2),
+                        if obs_j.get("status").is_some() { "refused" } else if obs_j.get("limit").is_some() { "ok" } else { "fail" }
+                    )],
+                    large_query_tags(kvs, target.len()),
+                ]
+                .concat(),
                 nontrivial: true,
             }]
         }
     }
+}
+
+fn large_query_tags(kvs: &[(String, String)], bytes: usize) -> Vec<String> {
+    let mut t = vec![];
+    for key in ["page_token", "limit"] {
+        let c = kvs.iter().filter(|(k, _)| k == key).count();
+        if c >= 17 {
+            t.push(format!("large:{}-occurrences:{}", key, c));
+        }
+    }
+    if kvs.len() >= 17 {
+        t.push(format!("large:parameters:{}", kvs.len()));
+    }
+    if bytes >= 4000 {
+        t.push(format!("large:query-bytes:{}", bytes));
+    }
+    for (k, v) in kvs {
+        if k == "limit" && v.len() >= 16 {
+            t.push(format!("large:limit-chars:{}", v.len()));
+        }
+    }
+    t
 }
 
 fn env_oracle_lsel(bytes: &[u8]) -> (EnvO, u64) {
@@ -1074,6 +1221,19 @@ fn limit_spellings() -> Vec<String> {
     .iter()
     .map(|s| s.to_string())
     .collect();
+    // leading zeros and plus signs up to 64 characters, 64-digit numbers
+    for z in [7usize, 15, 16, 31, 32, 62, 63] {
+        v.push(format!("{}1", "0".repeat(z)));
+        v.push(format!("+{}255", "0".repeat(z.saturating_sub(3))));
+        v.push("0".repeat(z + 1));
+    }
+    v.push(format!("{}4294967295", "0".repeat(54)));
+    v.push(format!("{}4294967296", "0".repeat(54)));
+    v.push("9".repeat(64));
+    v.push(format!("1{}", "0".repeat(63)));
+    v.push(format!("+{}", "1".repeat(63)));
+    v.push(format!("-{}", "1".repeat(63)));
+    v.push("+".repeat(64));
     for k in 0..=33u32 {
         // powers of two and neighbours
         let p = 1u64 << k;
@@ -1169,6 +1329,110 @@ fn gen_live(rng: &mut Rng, thorough: bool, cases: &mut Vec<Case>) {
     cases.push(Case::Live { kvs: vec![kv("junk", "1"), kv("page_token", &t5), kv("a", "b")], n: 50, from: Some(5) });
 }
 
+/// Large-scope slice (deterministic): the size-like dimensions of the token
+/// pipeline and of the query pushed across round numbers.
+fn gen_large(rng: &mut Rng, thorough: bool, cases: &mut Vec<Case>) {
+    let kv = |k: &str, v: &str| (k.to_string(), v.to_string());
+    // ---- envelope (token JSON) sizes: issue through ResultsPage::new, and the
+    // hand-encoded token of the same envelope presented back
+    let marks: [usize; 7] = [256, 384, 512, 1024, 4096, 16384, 65536];
+    for m in marks {
+        for target in [m - 1, m, m + 1] {
+            if !thorough && m == 16384 && target != m {
+                continue;
+            }
+            if let Some(sel) = sized::<String>(rng, target, 'e') {
+                cases.push(issue_case("s1", &sel));
+                // quick: the 64 KiB token once (it costs seconds to decode in Coq)
+                if thorough || m < 65536 || target == m {
+                    cases.push(Case::Accept {
+                        shape: "s1".into(),
+                        token: own_token(&own_envelope(&sel)),
+                        from: Some(serde_json::to_value(&sel).unwrap()),
+                    });
+                }
+            }
+        }
+    }
+    for target in [256usize, 257, 1024, 1025, 4096] {
+        if let Some(sel) = sized::<S2>(rng, target, if thorough { '\u{e9}' } else { 'e' }) {
+            cases.push(issue_case("s2", &sel));
+        }
+        if let Some(sel) = sized::<S3>(rng, target, 'e') {
+            cases.push(issue_case("s3", &sel));
+        }
+    }
+    // ---- token lengths: runs of one character, and valid envelopes padded with
+    // JSON whitespace so that the token has exactly that many characters
+    for n in [255usize, 256, 257, 1023, 1025, 4095, 4096, 4097, 16384, 65535, 65536, 65537] {
+        if !thorough && n > 4097 && n != 65536 {
+            continue;
+        }
+        cases.push(Case::Accept { shape: "s1".into(), token: "A".repeat(n), from: None });
+    }
+    for bytes in [191usize, 192, 193, 767, 768, 769, 3072, 49152] {
+        if !thorough && bytes == 49152 {
+            continue;
+        }
+        let mut b = b"{\"v\":\"v1\",\"page_start\":\"padded\"}".to_vec();
+        b.resize(bytes, b' ');
+        cases.push(Case::Accept { shape: "s1".into(), token: own_token(&b), from: None });
+    }
+    // ---- how often a parameter occurs
+    let good_sel = "moose".to_string();
+    let good = issue(&good_sel).expect("token");
+    let gv = Some(serde_json::to_value(&good_sel).unwrap());
+    let live_good = issue_lsel(5).expect("token");
+    for count in [2usize, 17, 257] {
+        // all the same valid token; first one broken; last one broken
+        let all: Vec<(String, String)> = (0..count).map(|_| kv("page_token", &good)).collect();
+        let mut first_bad = all.clone();
+        first_bad[0] = kv("page_token", "q");
+        let mut last_bad = all.clone();
+        last_bad[count - 1] = kv("page_token", "q");
+        for (kvs, from) in [(all, gv.clone()), (first_bad, gv.clone()), (last_bad, None)] {
+            cases.push(Case::Query { shape: "s1".into(), kvs, from });
+        }
+        let lims: Vec<(String, String)> = std::iter::once(kv("a", "x")).chain((0..count).map(|_| kv("limit", "7"))).collect();
+        cases.push(Case::Query { shape: "s1".into(), kvs: lims, from: None });
+        let junk: Vec<(String, String)> =
+            (0..count).map(|i| kv(&format!("j{}", i % 3), "1")).chain([kv("a", "x"), kv("limit", "7")]).collect();
+        cases.push(Case::Query { shape: "s1".into(), kvs: junk.clone(), from: None });
+        // over HTTP
+        let lall: Vec<(String, String)> = (0..count).map(|_| kv("page_token", &live_good)).collect();
+        let mut llast_bad = lall.clone();
+        llast_bad[count - 1] = kv("page_token", "q");
+        cases.push(Case::Live { kvs: lall, n: 50, from: Some(5) });
+        cases.push(Case::Live { kvs: llast_bad, n: 50, from: None });
+        cases.push(Case::Live { kvs: (0..count).map(|_| kv("limit", "7")).collect(), n: 50, from: None });
+        cases.push(Case::Live { kvs: junk, n: 50, from: None });
+    }
+    // ---- query sizes: straight into serde_urlencoded ...
+    for bytes in [4096usize, 65536, 1 << 20] {
+        if !thorough && bytes > 65536 {
+            continue;
+        }
+        cases.push(Case::Query { shape: "s1".into(), kvs: vec![kv("a", "x"), kv("junk", &"j".repeat(bytes)), kv("limit", "7")], from: None });
+        cases.push(Case::Query { shape: "s1".into(), kvs: vec![kv("junk", &"j".repeat(bytes)), kv("page_token", &good)], from: gv.clone() });
+        cases.push(Case::Query { shape: "s1".into(), kvs: vec![kv("page_token", &"A".repeat(bytes))], from: None });
+    }
+    // ... and over HTTP: request targets of 4 KiB, 16 KiB, up to the longest
+    // the HTTP library lets through (65534 bytes) and beyond
+    for total in [4096usize, 16384, 65000, 65533, 65534, 65535, 65536, 70000, 131072] {
+        if !thorough && matches!(total, 65533 | 70000) {
+            continue;
+        }
+        // "/live/50?junk=" + value + "&limit=7"
+        let fixed = "/live/50?junk=".len() + "&limit=7".len();
+        cases.push(Case::Live { kvs: vec![kv("junk", &"j".repeat(total - fixed)), kv("limit", "7")], n: 50, from: None });
+        let fixed2 = "/live/50?junk=".len() + "&page_token=".len() + enc(&live_good).len();
+        cases.push(Case::Live { kvs: vec![kv("junk", &"j".repeat(total - fixed2)), kv("page_token", &live_good)], n: 50, from: Some(5) });
+    }
+    for bytes in [4096usize, 65000] {
+        cases.push(Case::Live { kvs: vec![kv("page_token", &"A".repeat(bytes))], n: 50, from: None });
+    }
+}
+
 fn generate(opts: &Opts) -> Vec<Case> {
     let mut rng = Rng::new(opts.seed);
     let mut cases = vec![];
@@ -1181,6 +1445,7 @@ fn generate(opts: &Opts) -> Vec<Case> {
         cases.push(Case::Issue { shape: "s4".into(), sel: json!({"fail": fail, "x": x}) });
     }
     gen_live(&mut rng, opts.thorough, &mut cases);
+    gen_large(&mut rng, opts.thorough, &mut cases);
     // the driver cuts the output into consecutive shards: mix the groups so
     // that every shard gets a similar load
     rng.shuffle(&mut cases);
